@@ -114,6 +114,11 @@ def run(tier):
     progs = _rel.programs(out, tier, PROP, versions, 2500 if tier == 'thorough' else 250, rng, literals=True)
     scratch = Scratch(PROP)
     try:
+        # tokenize the way Grammar.parse does: with the grammar of the version loaded first (loading a grammar
+        # tokenizes the grammar file itself, with the patterns of another version)
+        parso = record.parso
+        for v in sorted(progs, reverse=True):
+            parso.load_grammar(version=v)
         traces = []
         nacc_ref = 0
         n_artefact = 0
